@@ -88,20 +88,29 @@ impl<'a, P> State<'a, P> {
     where
         T: CustomState<'a> + TidAble<'a>,
     {
-        #[derive(better_any::Tid)]
-        struct Marker<T>(PhantomData<fn() -> T>);
-        impl<'a, T: TidAble<'a>> CustomState<'a> for Marker<T> {}
+        // Remember how many scopes up `T` lives, to put it back into exactly that scope.
+        let mut depth = 0;
+        let mut registry: &mut StateRegistry<'a> = &mut self.registry;
+        while !registry.contains_at_top::<T>() {
+            registry = registry
+                .parent_mut()
+                .ok_or_else(StateError::not_found::<T>)?;
+            depth += 1;
+        }
+        let mut t = registry.remove::<T>()?;
 
-        let registry_with_t = self.find_mut::<T>()?;
-        registry_with_t.insert(Marker::<T>(PhantomData));
-        let mut t = registry_with_t.remove::<T>()?;
-        f(&mut t, self)?;
+        let result = f(&mut t, self);
 
-        let state_with_t = self.find_mut::<Marker<T>>()?;
-        state_with_t.insert(t);
-        state_with_t.remove::<Marker<T>>()?;
+        // Put `T` back before propagating a possible error.
+        let mut registry: &mut StateRegistry<'a> = &mut self.registry;
+        for _ in 0..depth {
+            registry = registry
+                .parent_mut()
+                .ok_or_else(StateError::not_found::<T>)?;
+        }
+        registry.insert(t);
 
-        Ok(())
+        result
     }
 }
 
